@@ -822,7 +822,8 @@ def m1_maps(ctx):
         # new index: imap[old]  |  new_u of `for u, new_u in imap.items()`
         if isinstance(new_i, ast.Subscript) and is_imap(new_i.value, st):
             okp = True if au.src(new_i.slice) == au.src(old_i) else \
-                (False if isinstance(new_i.slice, ast.Name) and isinstance(old_i, ast.Name) and F.root(new_i.slice.id, st) != F.root(old_i.id, st) else None)
+                (False if isinstance(new_i.slice, ast.Name) and isinstance(old_i, ast.Name) and F.root(new_i.slice.id, st) != F.root(old_i.id, st)
+                 and not is_find(F.resolve(new_i.slice, st)) and not any(is_find(n_) for n_ in ast.walk(F.resolve(new_i.slice, st))) else None)
         elif isinstance(new_i, ast.Name):
             for a in au.ancestors(st):
                 if isinstance(a, ast.For) and isinstance(a.iter, ast.Call) and au.call_tail(a.iter) == "items" and is_imap(a.iter.func.value, a) \
@@ -927,12 +928,20 @@ def m1_maps(ctx):
     n_mapped = (1 if m_inner == "mapped" else 0) + sum(1 for p_ in passes if p_ == "mapped")
     bad = [p_ for p_ in passes + [m_inner] if isinstance(p_, tuple)]
     find_at_record = [c_ for c_ in au.calls(fn) if au.call_tail(c_) in ("add", "append") and c_.args and is_find(F.resolve(c_.args[0], c_))]
+    # entries of the table that do not come from the corner numbering of the creation loop (read off the output faces later ..)
+    d_adds = [c_ for c_ in au.calls(fn) if au.call_tail(c_) in ("add", "append") and isinstance(c_.func.value, ast.Subscript) and isinstance(c_.func.value.value, ast.Name)
+              and F.root(c_.func.value.value.id, c_) == Droot]
+    late_adds = [c_ for c_ in d_adds if any(isinstance(n_, (ast.Attribute, ast.Name)) and tk(n_, c_) == OF for a_ in au.ancestors(c_) if isinstance(a_, ast.For)
+                                            for n_ in ast.walk(a_.iter)) or any(isinstance(n_, ast.Subscript) and tk(n_.value, c_) == OF for n_ in ast.walk(c_))]
+    find_at_record = find_at_record + late_adds
     if m_inner is None or any(p_ is None for p_ in passes) or (bad and find_at_record):
         ctx.undecided("C16-M1", site, "how the recorded copies are taken to the final vertex indices is not recognised", "")
     elif bad:
         ctx.fail("C16-M1", site, "the duplicate table is not mapped through the same merge + renumbering as the faces", bad[0][1])
     elif n_mapped == 1:
         ctx.ok("C16-M1", site, "duplicates -> imap[find(u)]")
+    elif n_mapped == 0 and late_adds:
+        ctx.undecided("C16-M1", site, "the recorded copies are read off the output faces", "")
     elif n_mapped == 0 and [n_ for n_ in au.walk(fn) if isinstance(n_, ast.Subscript) and is_imap(n_.value, n_) and isinstance(n_.ctx, ast.Load)
                             and not any(isinstance(a_, ast.Assign) and isinstance(a_.targets[0], ast.Subscript) and
                                         (tk(a_.targets[0].value, a_) == OF or is_imap(a_.targets[0].value, a_) or
@@ -1024,6 +1033,10 @@ def c1_cut_graph(ctx):
                 verdict = True
             elif dk in ("self.input_mesh.interior_edges", "self.input_mesh.boundary_edges") and sub_ok:
                 verdict = "the complement is taken among the " + dk.rsplit(".", 1)[1].replace("_", " ") + " only: the original border must be part of the cut graph"
+    completed = [c_ for c_ in au.calls(fn) if isinstance(c_.func, ast.Attribute) and c_.func.attr in ("update", "add", "union", "__ior__") and au.is_self_attr(c_.func.value, "cut_edges")] + \
+        [st_ for st_ in au.stmts(fn.body) if isinstance(st_, ast.AugAssign) and au.is_self_attr(st_.target, "cut_edges")]
+    if verdict is not True and verdict is not None and completed:
+        verdict = None
     if verdict is True:
         ctx.ok(R, site, "complement of the dual tree")
     elif verdict is None:
@@ -1138,19 +1151,30 @@ def c1_cut_graph(ctx):
             ctx.undecided(R, S(c), "the conditions under which a vertex is queued for pruning are not recognised", "")
             continue
         why = "pruning must stop at singular vertices: every singularity keeps a copy on the border of the cut mesh"
-        # mentions of the singular vertices that are not among the conditions of an enqueue (an iteration domain, a precomputed set ..)
-        cond_srcs = set()
+        # mentions of the singular vertices that guard neither this enqueue nor (as its own `if`) another one: an iteration domain, a precomputed
+        # set, a test made when the vertex is popped .. may exclude the singular vertices for this enqueue as well
+        def direct_guards(call_):
+            out_ = set()
+            for a_ in au.ancestors(call_):
+                if isinstance(a_, ast.If):
+                    out_ |= {id(n_) for n_ in ast.walk(a_.test)}
+                if isinstance(a_, (ast.For, ast.While, ast.FunctionDef)):
+                    break
+            return out_
+        mine_ = {id(n_) for t_, pol_ in sk.path_conds(c, stop=None) for n_ in ast.walk(t_)} | direct_guards(c)
+        theirs_ = set()
         for c2_ in apps:
-            for t_, pol_ in sk.path_conds(c2_, stop=None):
-                for n_ in ast.walk(t_):
-                    cond_srcs.add(id(n_))
-        sing_elsewhere = [n_ for n_ in au.walk(fn) if isinstance(n_, ast.Attribute) and ("singu" in n_.attr) and id(n_) not in cond_srcs]
+            if c2_ is not c:
+                theirs_ |= direct_guards(c2_)
+        sing_elsewhere = [n_ for n_ in au.walk(fn) if isinstance(n_, ast.Attribute) and ("singu" in n_.attr) and id(n_) not in mine_ and id(n_) not in theirs_]
         if sing is None and sing_elsewhere:
             ctx.undecided(R, S(c), "the singular vertices are excluded from the pruning in a way the rule does not follow", "")
         elif sing is None:
             _absent(ctx, F, fn, R, S(c), "a vertex is queued for pruning without the tests `cut degree == 1 and not singular`", why + " (no test against the singular vertices)")
         elif not sing[0]:
             ctx.fail(R, S(c), "a vertex is queued for pruning without the tests `cut degree == 1 and not singular`", why + " (the singularity test is made on another vertex)")
+        elif sing[1] and (sing[2] is None or isinstance(sing[2], tuple)):
+            ctx.undecided(R, S(c), "the container the pruning tests for singular vertices is not recognised", "")
         elif sing[1]:
             ctx.fail(R, S(c), "a vertex is queued for pruning without the tests `cut degree == 1 and not singular`", why + " (the test is inverted)")
         elif isinstance(sing[2], tuple):
@@ -1470,7 +1494,12 @@ def k1_spanning_tree_no_features(ctx):
                             and any(_none_selector(F, e, p, st)[0] is not e and isinstance(e, ast.Compare) and isinstance(e.left, ast.Name)
                                     and e.left.id == k_.id for e, p in conds):
                         okk = True
-            if not bad and not foreign and okk:
+            n_border_stores = len([1 for st2_, tg2_, v2_, lp2_ in cand[D] if isinstance(tg2_.slice, ast.Tuple) and hr.same(tg2_.slice, tg.slice)])
+            self_tests = [e_ for e_, p_ in bad if isinstance(e_, ast.Compare) and isinstance(e_.ops[0], (ast.In, ast.NotIn)) and
+                          any(isinstance(n_, ast.Name) and F.root(n_.id, st) == D for n_ in ast.walk(e_.comparators[0]))]
+            if bad and (n_border_stores > 1 or self_tests):
+                ctx.undecided(R, S(st), "the border candidate is recorded on several branches / under a test on the candidate table itself", "")
+            elif not bad and not foreign and okk:
                 ctx.ok(R, S(st), "(BORDER, a) candidate for every singularity")
             elif not bad and foreign:
                 ctx.undecided(R, S(st), "the condition under which the border candidate is recorded is not recognised", "")
